@@ -342,6 +342,26 @@ example (a b c d e f g h i w sx sy sz : ℝ) :
   rw [station_inertial_velocity]
   simp [mulVec3, mAt]
 
+/-! ## From the caller's coordinates (degrees, any numeric kind) to the station -/
+
+/-- **A station created from geodetic latitude, longitude (degrees) and altitude** is the station of the theorems
+above at `lat = lat_deg·π/180`, `lon = lon_deg·π/180`, for every real value of the three coordinates — whole numbers
+included (the conversion is translated from `create_station`; that the code applies it in double precision to
+coordinates given as Python or numpy integers, floats, mixed tuples, lists and arrays is the `create` operation of the
+correspondence run). -/
+theorem create_station_from_degrees (latd lond alt : ℝ) :
+    createStation latd lond alt =
+      (geodeticToCartesian (latd * Real.pi / 180) (lond * Real.pi / 180) alt,
+       topoM (latd * Real.pi / 180) (lond * Real.pi / 180),
+       [latd * Real.pi / 180, lond * Real.pi / 180, alt]) := by
+  simp [createStation, stationRadians, stationPos]
+
+/-- e.g. integer coordinates: 90° east on the equator puts the station on the +y axis, x axis (north) = +z -/
+example : (createStation 0 90 0).2.1 = [[0, 1, 0], [0, 0, 1], [1, 0, 0]] := by
+  rw [create_station_from_degrees, topoM_eq]
+  have h : (90 : ℝ) * Real.pi / 180 = Real.pi / 2 := by ring
+  simp [h]
+
 /-! ## Measurements -/
 
 /-- **Range is counted once per leg of the signal path**: `Range.from_orbit(orb).value` is the station-frame `r`
